@@ -24,7 +24,9 @@ ASSUMPTIONS = [
 ]
 
 PRIORITY = ['iteration', 'iteration_error', 'iteration_abs_change', 'k', 't']
-NAMES = PRIORITY + ['x', 'X', 'a', 'B', 'HH__F', 'hh__f', 'GOV__T', 'LAG_x', 'z9', 'Z', 'tt', 'K', '_u']
+NAMES = PRIORITY + ['x', 'X', 'a', 'B', 'HH__F', 'hh__f', 'GOV__T', 'LAG_x', 'z9', 'Z', 'tt', 'K', '_u', 'year', 'HH2__F']
+# the holder's constructor takes the name of ITS time axis; the documented column order does not depend on it
+AXES = ['k', 'k', 'iteration', 'year', 't', 'x', 'date']
 SPECIAL = [0.0, -0.0, 1e308, -1e308, 5e-324, float('inf'), float('-inf'), float('nan'), 1e-7, 123456789.123456789,
            0.1, 1 / 3.0, -2.5, 1e16, 99999.5]
 
@@ -59,7 +61,7 @@ def holder_case(draw):
         # "all format strings": literal text around the conversion (quoted fields, a unit, a percent sign)
         pre, post = draw(st.sampled_from(DECORATIONS))
         fmt = pre + fmt + post
-    return {'series': series, 'fmt': fmt, 'later': later}
+    return {'series': series, 'fmt': fmt, 'later': later, 'axis': draw(st.sampled_from(AXES))}
 
 
 def val(v):
@@ -158,7 +160,7 @@ def precision(fmt, v):
 
 def run_holder(spec):
     from sfc_models.utils import TimeSeriesHolder
-    h = TimeSeriesHolder('k')
+    h = TimeSeriesHolder(spec.get('axis', 'k'))
     data = {}
     for nm, vals in spec['series']:
         data[nm] = [val(v) for v in vals]
